@@ -6,6 +6,7 @@ import z3
 from .vals import (V, Val, SeqVal, IntS, BoolS, Unsupported, fresh, fresh_name, box, vany, vref, NONE)
 
 FRESH_BASE = 10 ** 9  # oids >= FRESH_BASE are allocated during the execution (concrete, pairwise distinct)
+LOOP_BASE = 2 * 10 ** 9  # oids >= LOOP_BASE: allocated inside a cut-point loop body (symbolic, fresh w.r.t. array 'A')
 
 ARR_SORTS = {
     'L': z3.ArraySort(IntS, SeqVal),                       # list / tuple / deque contents
@@ -15,6 +16,7 @@ ARR_SORTS = {
     'S': z3.ArraySort(IntS, z3.ArraySort(Val, BoolS)),     # set membership
     'SN': z3.ArraySort(IntS, IntS),                        # set size
     'C': z3.ArraySort(IntS, IntS),                         # class id of an object
+    'A': z3.ArraySort(IntS, BoolS),                        # allocated-in-a-loop predicate (grows monotonically)
 }
 FIELD_SORT = z3.ArraySort(IntS, Val)
 
@@ -60,6 +62,7 @@ class State:
         self.trace: tuple = ()         # branch decisions (line numbers) for path naming
         self.exc_stack: tuple = ()     # exceptions being handled (for bare `raise`)
         self.private: frozenset = frozenset()   # fresh oids that were never stored in the heap / passed to unknown code
+        self.sym_alloc = False         # inside a cut-point loop body: allocations get symbolic oids
 
     def fork(self) -> 'State':
         s = State.__new__(State)
@@ -73,6 +76,7 @@ class State:
         s.trace = self.trace
         s.exc_stack = self.exc_stack
         s.private = self.private
+        s.sym_alloc = self.sym_alloc
         return s
 
     # -- heap arrays -------------------------------------------------------
@@ -94,7 +98,7 @@ class State:
     def havoc_heap(self, keep=()):
         """Forget everything about the heap except the arrays named in `keep` (and ghost arrays)."""
         old_arr = dict(self.arr)
-        kept = {k: v for k, v in self.arr.items() if k in keep or k.startswith('g:') or k == 'C'}
+        kept = {k: v for k, v in self.arr.items() if k in keep or k.startswith('g:') or k in ('C', 'A')}
         # class ids of existing objects never change
         old_epoch = self.epoch
         for k in keep:
@@ -141,6 +145,17 @@ class State:
 
     # -- allocation --------------------------------------------------------
     def alloc(self, cls=None, path=None) -> V:
+        if self.sym_alloc:
+            # An arbitrary iteration of a loop: the new object is distinct from every object allocated by earlier
+            # iterations (array 'A'), from all straight-line allocations (< LOOP_BASE) and from the pre-state.
+            o = fresh(IntS, 'new')
+            a = self.get_arr('A')
+            self.assume(z3.And(o >= LOOP_BASE, z3.Not(z3.Select(a, o))))
+            self.arr['A'] = z3.Store(a, o, z3.BoolVal(True))
+            v = vref(o, cls=cls, path=path)
+            if cls is not None:
+                self.arr['C'] = z3.Store(self.get_arr('C'), o, z3.IntVal(self.ctx.class_id(cls)))
+            return v
         oid = self.next_oid
         self.next_oid += 1
         self.private = self.private | {oid}
